@@ -262,6 +262,7 @@ class V1Ctx:
         self.held = Fraction(0)  # GLP units, ledger of accepted mints / burns as returned
         self.reward = Fraction(0)
         self.row = None
+        self.topup = {}  # token name -> what the harness added to the wallet so that a generated buy is affordable
 
     def wallet(self):
         return {k.name: v.balance for k, v in self.fz.broker.assets.items()}
@@ -296,6 +297,7 @@ def v1_buy(ctx, tok, token_wei, tag=""):
     rule_fees = G.fee_envelope(st.usdg_amount, exp["usdg"], st.target, True) | {exp["fee_bps"]}
     if ctx.fz.broker.get_token_balance(tok) < amount:
         ctx.fz.broker.add_to_balance(tok, amount)
+        ctx.topup[tok.name] = ctx.topup.get(tok.name, Fraction(0)) + F(amount)
         mon.cls("v1/wallet-topped-up")
     wb = ctx.wallet()
     held_before = F(m.glp_amount)
@@ -512,6 +514,7 @@ def v1_round_trip(ctx, tok, rng, sizing):
             return
     st = v1_state(ctx.row, tok, ctx.tokens)
     w0 = ctx.wallet()[tok.name]
+    top0 = ctx.topup.get(tok.name, Fraction(0))
     nbuy = rng.choice([1, 1, 1, 2, 3])
     paid = Fraction(0)
     sizes = []
@@ -546,7 +549,7 @@ def v1_round_trip(ctx, tok, rng, sizing):
                       {"token": tok.name, "paid": str(paid), "got": str(got), "state": dcls})
     w1 = ctx.wallet()[tok.name]
     mon.ev()
-    if F(w1) - F(w0) > max(abs(F(w0)), 1) * Fraction(1, 10**33):
+    if F(w1) - F(w0) - (ctx.topup.get(tok.name, Fraction(0)) - top0) > max(abs(F(w0)), abs(F(w1)), 1) * Fraction(1, 10**33):
         mon.violation("gmx", "buy_glp+sell_glp", "round-trip-profit", "wallet-grew",
                       f"{ctx.label}: wallet {tok.name} {w0} -> {w1} over a same-token round trip ({dcls})")
     loss_bp = float((paid - got) / paid / BP) if paid > 0 else 0.0
